@@ -198,6 +198,25 @@ func runC11(r *fw.Runner) {
 			}
 		})
 	}
+	// (d) the same question at the level of anchored operations: an update / recover / create whose delta carries an ietf-json-patch
+	// that validation refuses never changes the keys or services, however often the applier is handed the operation
+	for _, typ := range []byte("cur") {
+		typ := typ
+		for _, variant := range []int{20, 21} {
+			variant := variant
+			for b := 0; b < r.N(2, 10); b++ {
+				r.Case("refused-patch-through-the-applier", func(c *fw.Case) {
+					c.Count("refused-patch-operations-applied", 1)
+					c.Sig("applier-route", typ, variant)
+					plan := []planEntry{{'c', "valid", nil}, {typ, fmt.Sprintf("delta-invalid-patch/%d", variant), nil}}
+					if typ == 'c' {
+						plan = plan[1:]
+					}
+					runHistory(c, plan, fw.Pick(c.Rng, gen.SigningKeyTypes), 18, true, "C01")
+				})
+			}
+		}
+	}
 	// (b) random sequences
 	for b := 0; b < r.N(150, 6000); b++ {
 		r.Case("sequences", func(c *fw.Case) {
